@@ -2,6 +2,7 @@
 
   python -m vf.kf known C01 "<key>" "<what>"
   python -m vf.kf fixed C01 <commit> "<what failed>"
+  python -m vf.kf remove C01 "<key>"      (a known entry that no longer reproduces after a fix)
 """
 import json, os, sys
 ROOT = os.path.dirname(os.path.dirname(os.path.abspath(__file__)))
@@ -11,7 +12,12 @@ _lock = open(P + ".lock", "w")
 fcntl.flock(_lock, fcntl.LOCK_EX)
 d = json.load(open(P))
 kind, pid = sys.argv[1], sys.argv[2]
-if kind == "known":
+if kind == "remove":
+    key = sys.argv[3]
+    before = len(d["findings"])
+    d["findings"] = [f for f in d["findings"] if not (f.get("status") == "known" and f["property"] == pid and f["key"] == key)]
+    print("removed %d" % (before - len(d["findings"])))
+elif kind == "known":
     key, what = sys.argv[3], sys.argv[4]
     d["findings"] = [f for f in d["findings"] if not (f.get("status") == "known" and f["property"] == pid and f["key"] == key)]
     d["findings"].append(dict(property=pid, status="known", key=key, what=what))
